@@ -368,7 +368,10 @@ class World(object):
         busy = bool(evs)
         if self.api_pos < len(self.script):
             call = self.script[self.api_pos]
-            if not (call.get("after_idle") and busy):
+            need = call.get("needs_request")
+            if need and not (need in self.workers and self.workers[need].requests):
+                pass
+            elif not (call.get("after_idle") and busy):
                 if not (call.get("after_quiet") and (busy or any_live_real_timer)):
                     evs.append((self.last_api_step, 5, ("api", self.api_pos)))
         evs.sort(key=lambda e: (e[0], e[1], e[2]))
@@ -630,6 +633,31 @@ class World(object):
                 self.started.append(call["arn"])
         elif op == "call":
             call["fn"](self)
+        elif op == "api":
+            # a scripted REST call; a task token can be taken from what a worker received
+            from .api import ApiClient
+            if getattr(self, "_apic", None) is None:
+                self._apic = ApiClient(self, 1)
+            params = json.loads(json.dumps(call.get("params") or {}))
+            tf = call.get("token_from")
+            if tf:
+                payload = json.loads(self.workers[tf].requests[0][2])
+                tok = payload.get("token") if isinstance(payload, dict) else None
+                if call.get("mangle") == "truncate":
+                    tok = tok[: len(tok) // 2]
+                elif call.get("mangle") == "forge":
+                    import base64
+                    raw = base64.b64decode(tok).decode()
+                    cid, rt = raw.split(":")
+                    forged = "00000000-0000-4000-8000-00000000ffff.waitForTaskToken:" + rt
+                    tok = base64.b64encode(forged.encode()).decode()
+                elif call.get("mangle") == "notbase64":
+                    tok = "%%%not-base64%%%"
+                params["taskToken"] = tok
+            st, js, text = self._apic.call(call["action"], params)
+            self.api_log.append({"step": self.step_no, "action": call["action"], "status": st, "type": (js or {}).get("__type") if isinstance(js, dict) else None,
+                                 "mangle": call.get("mangle"), "tag": call.get("tag")})
+            self.broker.log("api_call", action=call["action"], status=st, site=None)
         else:
             raise ValueError(op)
 
